@@ -151,6 +151,129 @@ theorem infix_markers_iff (p dom : Str) (hp : NoMarkers p) (hne : p ≠ []) :
   · rintro ⟨a, b, h⟩
     exact ⟨cHat :: a, b ++ [cDollar], by simp [← h]⟩
 
+/-! ### anchored keywords: the sentinel trick `^name$` implements `kwMeaning` -/
+
+theorem noMarker_of_subset {k dom : Str} (hd : NoMarkers dom) (h : k ⊆ dom) : k.any isMarker = false := by
+  rw [Bool.eq_false_iff]
+  intro hany
+  obtain ⟨c, hc, hm⟩ := List.any_eq_true.mp hany
+  have := hd c (h hc)
+  simp only [isMarker, Bool.or_eq_true, beq_iff_eq] at hm
+  rcases hm with rfl | rfl
+  · exact this.1 rfl
+  · exact this.2 rfl
+
+theorem hat_not_mem_body {dom : Str} (hd : NoMarkers dom) : cHat ∉ dom ++ [cDollar] := by
+  intro h
+  rcases List.mem_append.mp h with h | h
+  · exact (hd _ h).1 rfl
+  · simp at h; exact absurd h (by decide)
+
+theorem dollar_not_mem {dom : Str} (hd : NoMarkers dom) : cDollar ∉ dom := fun h => (hd _ h).2 rfl
+
+/-- **The sentinel trick is the documented meaning.** For a name without `^`/`$` and a non-empty
+keyword, `keyword` occurs in `^name$` iff `kwMeaning keyword name`. -/
+theorem infix_sentinels_eq_kwMeaning (p dom : Str) (hd : NoMarkers dom) (hne : p ≠ []) :
+    isInfix p (cHat :: dom ++ [cDollar]) = kwMeaning p dom := by
+  rw [Bool.eq_iff_iff, isInfix_iff]
+  have hS : cHat :: dom ++ [cDollar] = cHat :: (dom ++ [cDollar]) := by simp
+  rw [hS]
+  unfold kwMeaning
+  have hpe : p.isEmpty = false := by cases p <;> simp_all
+  simp only [hpe, Bool.false_eq_true, ↓reduceIte]
+  cases p with
+  | nil => exact absurd rfl hne
+  | cons c p1 =>
+    by_cases ha : c = cHat
+    · -- anchored at the start
+      subst ha
+      simp only [List.head?_cons, beq_self_eq_true, ↓reduceIte, List.tail_cons]
+      have step : cHat :: p1 <:+: cHat :: (dom ++ [cDollar]) ↔ p1 <+: dom ++ [cDollar] := by
+        rw [List.infix_cons_iff]
+        constructor
+        · rintro (h | h)
+          · exact (List.cons_prefix_cons.mp h).2
+          · exact absurd (h.subset (by simp)) (hat_not_mem_body hd)
+        · intro h; exact Or.inl (List.cons_prefix_cons.mpr ⟨rfl, h⟩)
+      rw [step]
+      by_cases hz : p1.getLast? = some cDollar
+      · obtain ⟨k, rfl⟩ := List.getLast?_eq_some_iff.mp hz
+        simp only [List.getLast?_concat, beq_self_eq_true, ↓reduceIte, List.dropLast_concat]
+        rw [List.prefix_concat_iff]
+        constructor
+        · rintro (h | h)
+          · have hk : k = dom := List.append_cancel_right h
+            subst hk
+            rw [noMarker_of_subset hd (fun _ h => h)]; simp
+          · exact absurd (h.subset (by simp)) (dollar_not_mem hd)
+        · intro h
+          by_cases hm : k.any isMarker = true
+          · simp [hm] at h
+          · simp only [hm, Bool.false_eq_true, ↓reduceIte, beq_iff_eq] at h
+            exact Or.inl (by rw [h])
+      · have hz' : (p1.getLast? == some cDollar) = false := by simpa using hz
+        simp only [hz', Bool.false_eq_true, ↓reduceIte]
+        rw [List.prefix_concat_iff]
+        constructor
+        · rintro (h | h)
+          · rw [h] at hz; simp at hz
+          · rw [noMarker_of_subset hd h.subset]
+            simpa [List.isPrefixOf_iff_prefix] using h
+        · intro h
+          by_cases hm : p1.any isMarker = true
+          · simp [hm] at h
+          · simp only [hm, Bool.false_eq_true, ↓reduceIte, List.isPrefixOf_iff_prefix] at h
+            exact Or.inr h
+    · -- not anchored at the start
+      have ha' : (some c == some cHat) = false := by simp [ha]
+      simp only [List.head?_cons, ha', Bool.false_eq_true, ↓reduceIte]
+      have step : c :: p1 <:+: cHat :: (dom ++ [cDollar]) ↔ c :: p1 <:+: dom ++ [cDollar] := by
+        rw [List.infix_cons_iff]
+        constructor
+        · rintro (h | h)
+          · exact absurd (List.cons_prefix_cons.mp h).1 ha
+          · exact h
+        · exact Or.inr
+      rw [step, List.infix_concat_iff]
+      by_cases hz : (c :: p1).getLast? = some cDollar
+      · obtain ⟨k, hk⟩ := List.getLast?_eq_some_iff.mp hz
+        rw [hk]
+        simp only [List.getLast?_concat, beq_self_eq_true, ↓reduceIte, List.dropLast_concat]
+        constructor
+        · rintro (h | h)
+          · rw [List.suffix_concat_iff] at h
+            rcases h with h | ⟨t, ht, hsuf⟩
+            · simp at h
+            · have : k = t := List.append_cancel_right ht
+              subst this
+              rw [noMarker_of_subset hd hsuf.subset]
+              simpa [List.isSuffixOf_iff_suffix] using hsuf
+          · exact absurd (h.subset (by simp)) (dollar_not_mem hd)
+        · intro h
+          by_cases hm : k.any isMarker = true
+          · simp [hm] at h
+          · simp only [hm, Bool.false_eq_true, ↓reduceIte, List.isSuffixOf_iff_suffix] at h
+            left
+            rw [List.suffix_concat_iff]
+            exact Or.inr ⟨k, rfl, h⟩
+      · have hz' : ((c :: p1).getLast? == some cDollar) = false := by simpa using hz
+        simp only [hz', Bool.false_eq_true, ↓reduceIte]
+        constructor
+        · rintro (h | h)
+          · rw [List.suffix_concat_iff] at h
+            rcases h with h | ⟨t, ht, _⟩
+            · simp at h
+            · rw [ht] at hz; simp at hz
+          · rw [noMarker_of_subset hd h.subset]
+            simpa [isInfix_iff] using h
+        · intro h
+          by_cases hm : (c :: p1).any isMarker = true
+          · simp [hm] at h
+          · simp only [hm, Bool.false_eq_true, ↓reduceIte, isInfix_iff] at h
+            exact Or.inr h
+
+theorem kwMeaning_nil (dom : Str) : kwMeaning [] dom = false := by simp [kwMeaning]
+
 /-! ### `AddSet` replay: what ends up in `toBuildTrie[i]`, `toBuildAc[i]`, `regexp[i]` -/
 
 /-- what one `AddSet` call appends to its set -/
@@ -631,17 +754,20 @@ theorem callFires_iff (a : AddCall) (dom : Str) (rxHits : List Nat) (hd : NoMark
         · exact ⟨cDot :: p.s ++ [cDollar], ⟨p, hp, by simp [normSuffix, hv, hdot]⟩, (dot_key_iff p.s dom hd).mpr hm⟩
   case keyword =>
     simp only [List.not_mem_nil, false_and, exists_false, false_or, or_false, patValid, patMatches,
-      List.mem_flatMap, Bool.and_eq_true, Bool.not_eq_true', List.isEmpty_eq_false_iff]
+      List.mem_flatMap]
     constructor
     · rintro ⟨k, ⟨p, hp, hkp⟩, hne, hin⟩
       unfold normKeyword at hkp
       split at hkp
       · rename_i hv
         simp only [List.mem_singleton] at hkp; subst hkp
-        exact ⟨p, hp, hv, hne, hin⟩
+        exact ⟨p, hp, hv, by rw [← infix_sentinels_eq_kwMeaning p.s dom hd hne]; exact hin⟩
       · simp at hkp
-    · rintro ⟨p, hp, hv, hne, hin⟩
-      exact ⟨p.s, ⟨p, hp, by simp [normKeyword, hv]⟩, hne, hin⟩
+    · rintro ⟨p, hp, hv, hm⟩
+      have hne : p.s ≠ [] := by
+        intro h; rw [h, kwMeaning_nil] at hm; exact absurd hm (by simp)
+      exact ⟨p.s, ⟨p, hp, by simp [normKeyword, hv]⟩, hne,
+        by rw [infix_sentinels_eq_kwMeaning p.s dom hd hne]; exact hm⟩
   case regex =>
     simp only [List.not_mem_nil, false_and, exists_false, false_or, patValid, patMatches,
       List.mem_map, true_and, List.contains_iff_mem]
